@@ -47,6 +47,8 @@ def lay(a, l):
         return a[None, :].copy()
     if l == 'three_d':
         return (np.zeros((len(a), 2, 3)) + a[:, None, None]).copy()
+    if l == 'three_d_one':
+        return np.stack([a, a[::-1]], axis=1)[:, :, None].copy()
     if l == 'strided':
         buf = np.full(2 * len(a), -7, dtype=a.dtype)
         buf[::2] = a
